@@ -629,6 +629,15 @@ func (g *coreGen) stmt(d int) Node {
 	if !g.inFn && g.r.Intn(4) == 0 {
 		return g.containerStmt(d)
 	}
+	if !g.inFn && g.r.Intn(14) == 0 {
+		if g.r.Intn(2) == 0 {
+			return cn("print", "args", []any{map[string]any(cn("str", "v", "ack")), map[string]any(cn("call", "f", "fack", "args", []any{map[string]any(g.num(1 + g.r.Intn(3))), map[string]any(g.num(g.r.Intn(3)))}))})
+		}
+		// a member that may be missing, returned by one call and handed to a callee that assigns its parameter
+		return cn("print", "args", []any{map[string]any(cn("str", "v", "od")),
+			map[string]any(cn("call", "f", "od", "args", []any{map[string]any(cn("call", "f", "gm", "args", []any{map[string]any(cn("var", "n", g.pick("o0", "oa"))), map[string]any(cn("str", "v", g.pick(coreKeys...)))})), map[string]any(g.num(5 + g.r.Intn(4)))})),
+			map[string]any(cn("var", "n", "o0"))})
+	}
 	if !g.inFn && g.r.Intn(12) == 0 {
 		hh := func() Node {
 			return cn("bin", "op", g.pick("+", "-", "*"), "l", map[string]any(cn("call", "f", "hr", "args", []any{})), "r", map[string]any(cn("call", "f", "hb", "args", []any{map[string]any(g.num(1 + g.r.Intn(3)))})))
@@ -804,6 +813,23 @@ func (g *coreGen) program() Node {
 	// ak adds a member through its parameter
 	fns = append(fns, map[string]any(cn("fn", "name", "ak", "params", []any{"o", "k"}, "body",
 		map[string]any(cn("block", "b", []any{map[string]any(cn("expr", "e", map[string]any(cn("asgidx", "n", "o", "key", map[string]any(cn("var", "n", "k")), "op", "=", "e", map[string]any(cn("num", "v", 7))))))})))))
+	// fack recurses through a later argument of the same call site; gm returns a member that may be missing,
+	// od assigns its first parameter
+	ifle := func(v string, then Node) map[string]any {
+		return map[string]any(cn("if", "c", map[string]any(cn("bin", "op", "<=", "l", map[string]any(cn("var", "n", v)), "r", map[string]any(cn("num", "v", 0)))),
+			"th", map[string]any(cn("block", "b", []any{map[string]any(then)})), "el", map[string]any(cn("none"))))
+	}
+	am1 := map[string]any(cn("bin", "op", "-", "l", map[string]any(cn("var", "n", "a")), "r", map[string]any(cn("num", "v", 1))))
+	bp1 := map[string]any(cn("bin", "op", "+", "l", map[string]any(cn("var", "n", "b")), "r", map[string]any(cn("num", "v", 1))))
+	fns = append(fns, map[string]any(cn("fn", "name", "fack", "params", []any{"a", "b"}, "body", map[string]any(cn("block", "b", []any{
+		ifle("a", cn("return", "e", map[string]any(cn("bin", "op", "+", "l", map[string]any(cn("var", "n", "b")), "r", map[string]any(cn("num", "v", 1)))))),
+		map[string]any(cn("return", "e", map[string]any(cn("call", "f", "fack", "args", []any{am1, map[string]any(cn("call", "f", "fack", "args", []any{am1, bp1}))}))))})))))
+	fns = append(fns, map[string]any(cn("fn", "name", "gm", "params", []any{"o", "k"}, "body", map[string]any(cn("block", "b", []any{
+		map[string]any(cn("return", "e", map[string]any(cn("idx", "n", "o", "key", map[string]any(cn("var", "n", "k"))))))})))))
+	fns = append(fns, map[string]any(cn("fn", "name", "od", "params", []any{"a", "b"}, "body", map[string]any(cn("block", "b", []any{
+		map[string]any(cn("if", "c", map[string]any(cn("bin", "op", "==", "l", map[string]any(cn("var", "n", "a")), "r", map[string]any(cn("null")))),
+			"th", map[string]any(cn("block", "b", []any{map[string]any(cn("expr", "e", map[string]any(cn("asg", "n", "a", "op", "=", "e", map[string]any(cn("var", "n", "b"))))))})), "el", map[string]any(cn("none")))),
+		map[string]any(cn("return", "e", map[string]any(cn("var", "n", "a"))))})))))
 	// hr returns the global h0 as a bare variable, hb assigns it: in hr() + hb(..) the left value is what hr returned
 	fns = append(fns, map[string]any(cn("fn", "name", "hr", "params", []any{}, "body",
 		map[string]any(cn("block", "b", []any{map[string]any(cn("return", "e", map[string]any(cn("var", "n", "h0"))))})))))
